@@ -1,5 +1,5 @@
 /*VERIF
-{ "tu": "src/apply.c", "enforce": "_dispatch_apply_redirect", "props": ["C10","C04"], "plain": true, "seq": true, "timeout": 240,
+{ "tu": "src/apply.c", "enforce": "_dispatch_apply_redirect", "props": ["C10","C04","C03"], "plain": true, "seq": true, "timeout": 240,
   "bounded": {"unwind": 5, "what": "target-queue chains of <= 3 custom queues below the root (pointer-chasing loop, no loop contract)"},
   "stub_note": "_dispatch_queue_try_reserve_apply_width (own contract), _dispatch_queue_relinquish_width, _dispatch_apply_serial, _dispatch_apply_f: stubs that keep a per-level ghost account of reserved width" }
 VERIF*/
